@@ -20,9 +20,85 @@ func isClosed(k uintptr) bool {
 	return closed[k] != nil
 }
 
-func checkCap(c int) {
-	if c == 0 {
-		panic("vsched: unbuffered channel (rendezvous) is not modelled")
+// Unbuffered channels are modelled without the real channel: a sender leaves an offer and is disabled until a
+// receiver has taken it; a receiver is disabled until there is an offer (or the channel is closed). Offers are taken
+// in order. All of this runs on one thread at a time (cooperative scheduling), so the tables need no lock of their
+// own beyond closedMu for the reset.
+type offer struct {
+	val   any
+	taken bool
+	sel   *Sel // offered by a select (withdrawn if the select takes another case)
+	idx   int
+}
+
+type chanState struct {
+	offers      []*offer
+	recvWaiting int          // plain receivers currently disabled on this channel
+	selWaiting  []*selWaiter // selects currently disabled with a receive case on this channel
+}
+
+type selWaiter struct {
+	s   *Sel
+	idx int
+}
+
+func (st *chanState) dropWaiter(s *Sel) {
+	out := st.selWaiting[:0]
+	for _, w := range st.selWaiting {
+		if w.s != s {
+			out = append(out, w)
+		}
+	}
+	st.selWaiting = out
+}
+
+var chans = map[uintptr]*chanState{}
+
+func stateOf(k uintptr) *chanState {
+	closedMu.Lock()
+	defer closedMu.Unlock()
+	st := chans[k]
+	if st == nil {
+		st = &chanState{}
+		chans[k] = st
+	}
+	return st
+}
+
+func (st *chanState) firstUntaken(notOf *Sel) *offer {
+	for _, o := range st.offers {
+		if !o.taken && (notOf == nil || o.sel != notOf) {
+			return o
+		}
+	}
+	return nil
+}
+
+func (st *chanState) otherWaiter(s *Sel) *selWaiter {
+	for _, w := range st.selWaiting {
+		if w.s != s && w.s.forced < 0 {
+			return w
+		}
+	}
+	return nil
+}
+
+func (st *chanState) untaken() int {
+	n := 0
+	for _, o := range st.offers {
+		if !o.taken {
+			n++
+		}
+	}
+	return n
+}
+
+func (st *chanState) remove(o *offer) {
+	for i, x := range st.offers {
+		if x == o {
+			st.offers = append(st.offers[:i], st.offers[i+1:]...)
+			return
+		}
 	}
 }
 
@@ -32,8 +108,25 @@ func Send[T any](ch chan<- T, v T) {
 		ch <- v
 		return
 	}
-	checkCap(cap(ch))
 	k := chanKey(ch)
+	if cap(ch) == 0 {
+		if isClosed(k) {
+			panic("send on closed channel")
+		}
+		Point("chan.send") // the send is attempted after this point: another thread may get there first
+		if isClosed(k) {
+			panic("send on closed channel")
+		}
+		st := stateOf(k)
+		o := &offer{val: v}
+		st.offers = append(st.offers, o)
+		Wait("chan.send.rendezvous", func() bool { return o.taken || isClosed(k) })
+		if !o.taken {
+			st.remove(o)
+			panic("send on closed channel")
+		}
+		return
+	}
 	Wait("chan.send", func() bool { return len(ch) < cap(ch) || isClosed(k) })
 	ch <- v
 }
@@ -50,8 +143,20 @@ func Recv2[T any](ch <-chan T) (T, bool) {
 		v, ok := <-ch
 		return v, ok
 	}
-	checkCap(cap(ch))
 	k := chanKey(ch)
+	if cap(ch) == 0 {
+		st := stateOf(k)
+		st.recvWaiting++
+		Wait("chan.recv", func() bool { return st.firstUntaken(nil) != nil || isClosed(k) })
+		st.recvWaiting--
+		if o := st.firstUntaken(nil); o != nil {
+			o.taken = true
+			st.remove(o)
+			return o.val.(T), true
+		}
+		var zero T
+		return zero, false
+	}
 	Wait("chan.recv", func() bool { return len(ch) > 0 || isClosed(k) })
 	v, ok := <-ch
 	return v, ok
@@ -72,5 +177,211 @@ func Close[T any](ch chan<- T) {
 func ResetChannels() {
 	closedMu.Lock()
 	closed = map[uintptr]interface{}{}
+	chans = map[uintptr]*chanState{}
 	closedMu.Unlock()
+}
+
+// ---- select ----
+//
+// select { case v := <-a: A; case b <- x: B; default: D } is rewritten by the instrumenter to
+//
+//	s := vsched.NewSelect(true); vsched.SelRecv(s, a); vsched.SelSend(s, b, x)
+//	switch vsched.SelWait(s) { case 0: v, ok := vsched.SelRecvDone[T](s); A; case 1: B; default: D }
+//
+// Under the explorer SelWait is a scheduling point; it is disabled until some case can proceed (unless there is a
+// default), the choice among several ready cases is an explorer decision (first ready case by default, every other
+// one costs a deviation), and the chosen communication is carried out before SelWait returns. Outside the
+// explorer the real select is performed through reflect.Select.
+type Sel struct {
+	hasDefault bool
+	cases      []*selCase
+	val        any
+	ok         bool
+	forced     int // >= 0: a select on the other side handed its value to this case while this select was disabled
+}
+
+type selCase struct {
+	recv     bool
+	k        uintptr
+	buffered bool
+	ready    func() bool // buffered channels and receives: can proceed now
+	do       func()      // carry out the communication (never blocks when ready)
+	offer    *offer      // unbuffered send: the offer left for receivers
+	val      any
+	rcase    reflect.SelectCase
+}
+
+func NewSelect(hasDefault bool) *Sel { return &Sel{hasDefault: hasDefault, forced: -1} }
+
+func SelRecv[T any](s *Sel, ch <-chan T) {
+	k := chanKey(ch)
+	c := &selCase{recv: true, k: k, buffered: cap(ch) > 0, rcase: reflect.SelectCase{Dir: reflect.SelectRecv, Chan: reflect.ValueOf(ch)}}
+	if ch == nil {
+		c.ready = func() bool { return false }
+		c.rcase.Chan = reflect.Value{}
+	} else if c.buffered {
+		c.ready = func() bool { return len(ch) > 0 || isClosed(k) }
+		c.do = func() { s.val, s.ok = <-ch }
+	} else {
+		st := stateOf(k)
+		c.ready = func() bool { return st.firstUntaken(s) != nil || isClosed(k) }
+		c.do = func() {
+			if o := st.firstUntaken(s); o != nil {
+				o.taken = true
+				st.remove(o)
+				s.val, s.ok = o.val.(T), true
+				return
+			}
+			var zero T
+			s.val, s.ok = zero, false
+		}
+	}
+	s.cases = append(s.cases, c)
+}
+
+func SelSend[T any](s *Sel, ch chan<- T, v T) {
+	k := chanKey(ch)
+	c := &selCase{k: k, buffered: cap(ch) > 0, val: v, rcase: reflect.SelectCase{Dir: reflect.SelectSend, Chan: reflect.ValueOf(ch), Send: reflect.ValueOf(v)}}
+	if ch == nil {
+		c.ready = func() bool { return false }
+		c.rcase.Chan = reflect.Value{}
+	} else if c.buffered {
+		c.ready = func() bool { return len(ch) < cap(ch) || isClosed(k) }
+		c.do = func() { ch <- v }
+	}
+	s.cases = append(s.cases, c)
+}
+
+// SelRecvDone returns what the chosen receive case received (the channel argument only fixes the type).
+func SelRecvDone[T any](s *Sel, _ <-chan T) (T, bool) {
+	if s.val == nil {
+		var zero T
+		return zero, s.ok
+	}
+	return s.val.(T), s.ok
+}
+
+// SelRecvVal is SelRecvDone without the ok flag.
+func SelRecvVal[T any](s *Sel, ch <-chan T) T {
+	v, _ := SelRecvDone(s, ch)
+	return v
+}
+
+// SelWait carries out the select and returns the index of the chosen case, or -1 for default.
+func SelWait(s *Sel) int {
+	if !Active() {
+		rc := make([]reflect.SelectCase, 0, len(s.cases)+1)
+		for _, c := range s.cases {
+			rc = append(rc, c.rcase)
+		}
+		if s.hasDefault {
+			rc = append(rc, reflect.SelectCase{Dir: reflect.SelectDefault})
+		}
+		i, v, ok := reflect.Select(rc)
+		if i == len(s.cases) {
+			return -1
+		}
+		if s.cases[i].recv {
+			s.ok = ok
+			if v.IsValid() {
+				s.val = v.Interface()
+			}
+		}
+		return i
+	}
+	Point("select")
+	// leave offers for the unbuffered send cases
+	for i, c := range s.cases {
+		if !c.recv && !c.buffered && c.rcase.Chan.IsValid() {
+			if isClosed(c.k) {
+				panic("send on closed channel")
+			}
+			c.offer = &offer{val: c.val, sel: s, idx: i}
+			st := stateOf(c.k)
+			st.offers = append(st.offers, c.offer)
+		}
+	}
+	readyNow := func() []int {
+		var out []int
+		for i, c := range s.cases {
+			switch {
+			case c.offer != nil:
+				st := stateOf(c.k)
+				// taken by a receiver; or a plain receiver is waiting with no other offer reserved for it; or another
+				// select is disabled with a receive case on this channel
+				if c.offer.taken || st.untaken() <= st.recvWaiting && st.firstUntaken(nil) == c.offer || st.otherWaiter(s) != nil {
+					out = append(out, i)
+				}
+			case c.ready != nil && c.ready():
+				out = append(out, i)
+			}
+		}
+		return out
+	}
+	chosen := -2
+	for chosen == -2 {
+		if s.forced >= 0 {
+			chosen = s.forced // value and ok were stored by the sending select
+			break
+		}
+		for i, c := range s.cases {
+			if c.offer != nil && c.offer.taken {
+				chosen = i // a receiver already took this offer: the communication has happened
+				break
+			}
+		}
+		if chosen != -2 {
+			break
+		}
+		if rd := readyNow(); len(rd) > 0 {
+			chosen = rd[Choose(len(rd), "select")]
+		} else if s.hasDefault {
+			chosen = -1
+		} else {
+			for i, c := range s.cases {
+				if c.recv && !c.buffered && c.rcase.Chan.IsValid() {
+					st := stateOf(c.k)
+					st.selWaiting = append(st.selWaiting, &selWaiter{s, i})
+				}
+			}
+			Wait("select", func() bool { return s.forced >= 0 || len(readyNow()) > 0 })
+			for _, c := range s.cases {
+				if c.recv && !c.buffered && c.rcase.Chan.IsValid() {
+					stateOf(c.k).dropWaiter(s)
+				}
+			}
+		}
+	}
+	// withdraw the offers of the cases not taken
+	for i, c := range s.cases {
+		if c.offer != nil && i != chosen && !c.offer.taken {
+			stateOf(c.k).remove(c.offer)
+		}
+	}
+	if chosen >= 0 {
+		c := s.cases[chosen]
+		if c.offer != nil {
+			st := stateOf(c.k)
+			switch {
+			case c.offer.taken:
+			case st.untaken() <= st.recvWaiting && st.firstUntaken(nil) == c.offer:
+				c.offer.sel = nil // committed: stays for the waiting plain receiver like a plain sender's offer
+			default:
+				// hand the value to a select disabled on the other side, which thereby takes that case
+				w := st.otherWaiter(s)
+				st.remove(c.offer)
+				w.s.forced, w.s.val, w.s.ok = w.idx, c.val, true
+				for _, oc := range w.s.cases {
+					if oc.recv && !oc.buffered && oc.rcase.Chan.IsValid() {
+						stateOf(oc.k).dropWaiter(w.s)
+					}
+				}
+			}
+		} else if s.forced >= 0 {
+			// received through a hand-over: nothing left to do
+		} else if c.do != nil {
+			c.do()
+		}
+	}
+	return chosen
 }
